@@ -20,6 +20,8 @@ fn main() {
     let args: Vec<String> = std::env::args().collect();
     let code = match args.get(1).map(|s| s.as_str()) {
         Some("c25") => vmon::c25::logmon_main(&args[2..]),
+        Some("c01-wide") => vmon::c01::logmon_main(&args[2..]),
+        Some("c05") => vmon::c05::logmon_main(&args[2..]),
         Some("help") | Some("--help") | Some("-h") => {
             usage();
             0
